@@ -8,12 +8,25 @@ import GJS.Props.FlatGen
 namespace GJS.Props.Tree
 open GJS GJS.Props.Flat
 
+def isArr (p : Schema) : Bool := p.node.types == ["array"]
+
+/-- the schema of an array member's items (the empty schema if there is none) -/
+def itemsOf (p : Schema) : Schema := p.node.items.getD default
+
+/-- an array of scalars as a member: `items` is a plain scalar, item counts allowed, nothing else -/
+def ArrProp (p : Schema) : Prop :=
+  p.node.types = ["array"] ∧ p.node.ref = "" ∧ p.node.enum = none ∧ p.node.ext = none ∧ p.node.anyOf = [] ∧ p.node.allOf = [] ∧
+  p.node.default = none ∧ (∃ it, p.node.items = some it) ∧ FlatProp (itemsOf p)
+
 /-- the Go type of a member before optional members are wrapped in a pointer -/
 def memTy (scope : String) (t : Schema) (n : String) : GoTy :=
-  if isObj (propOf t n) then .named (scope ++ fname n) else scalarTy (propOf t n)
+  if isObj (propOf t n) then .named (scope ++ fname n)
+  else if isArr (propOf t n) then .slice (scalarTy (itemsOf (propOf t n)))
+  else scalarTy (propOf t n)
 
+/-- optional members are pointers, except slices (nil already says "absent") -/
 def memFty (scope : String) (t : Schema) (n : String) : GoTy :=
-  if t.node.required.contains n then memTy scope t n else .ptr (memTy scope t n)
+  if t.node.required.contains n || isArr (propOf t n) then memTy scope t n else .ptr (memTy scope t n)
 
 def fieldT (cfg : Config) (scope : String) (t : Schema) (name : String) : Field :=
   let prop := propOf t name
@@ -28,7 +41,11 @@ def metaT (scope : String) (t : Schema) (name : String) : FieldMeta :=
   { name := fname name, jsonName := name, sch := propOf t name, dflt := none, ty := memFty scope t name }
 
 def memVs (t : Schema) (n : String) : List Validator :=
-  if isObj (propOf t n) then [] else propVs (fname n) (propOf t n) (!t.node.required.contains n)
+  if isObj (propOf t n) then []
+  else if isArr (propOf t n) then
+    (if (propOf t n).node.minItems ≠ 0 ∨ (propOf t n).node.maxItems ≠ 0 then
+      [Validator.array (fname n) 1 (propOf t n).node.minItems (propOf t n).node.maxItems] else [])
+  else propVs (fname n) (propOf t n) (!t.node.required.contains n)
 
 def nodeVs (t : Schema) : List Validator :=
   (flatReq t).map Validator.required ++ (sortedKeys t.node.props).flatMap (memVs t)
@@ -68,7 +85,7 @@ def MemberName (t : Schema) (n : String) : Prop :=
 def TreeOK : Nat → Schema → Prop
   | 0, _ => False
   | d + 1, t => ObjShape t ∧ ∀ n ∈ sortedKeys t.node.props, MemberName t n ∧
-      (FlatProp (propOf t n) ∨ (isObj (propOf t n) = true ∧ TreeOK d (propOf t n)))
+      (FlatProp (propOf t n) ∨ (isObj (propOf t n) = true ∧ TreeOK d (propOf t n)) ∨ ArrProp (propOf t n))
 
 theorem flatMap_congr' {α β : Type} (l : List α) (f g : α → List β) (h : ∀ a ∈ l, f a = g a) : l.flatMap f = l.flatMap g := by
   induction l with
@@ -200,13 +217,33 @@ def memDecls (cfg : Config) (d : Nat) (scope : String) (t : Schema) (n : String)
   if isObj (propOf t n) then treeDecls cfg d (scope ++ fname n) (propOf t n) else []
 
 def MemberOK (d : Nat) (t : Schema) (n : String) : Prop :=
-  MemberName t n ∧ (FlatProp (propOf t n) ∨ (isObj (propOf t n) = true ∧ TreeOK d (propOf t n)))
+  MemberName t n ∧ (FlatProp (propOf t n) ∨ (isObj (propOf t n) = true ∧ TreeOK d (propOf t n)) ∨ ArrProp (propOf t n))
 
 theorem flat_not_obj (p : Schema) (h : FlatProp p) : isObj p = false := by
   rcases h.1 with h | h | h | h <;> simp [isObj, h]
 
+theorem flat_not_arr (p : Schema) (h : FlatProp p) : isArr p = false := by
+  rcases h.1 with h | h | h | h <;> simp [isArr, h]
+
+theorem arr_not_obj (p : Schema) (h : ArrProp p) : isObj p = false := by simp [isObj, h.1]
+theorem arr_is_arr (p : Schema) (h : ArrProp p) : isArr p = true := by simp [isArr, h.1]
+theorem obj_not_arr (p : Schema) (h : isObj p = true) : isArr p = false := by
+  simp only [isObj, beq_iff_eq] at h; simp [isArr, h]
+
 theorem scope_mem_scopes (d : Nat) (scope : String) (t : Schema) : scope ∈ scopes (d + 1) scope t := by
   simp [scopes]
+
+theorem inline_arr (cfg : Config) (doc : SchemaDoc) (hc : genCfg cfg) (f : Nat) (p it : Schema) (scope : String)
+    (hp : ArrProp p) (hit : p.node.items = some it) (st : GenSt) :
+    (generateTypeInline cfg doc (f + 2) p scope none).run st = .ok ({ ty := .slice (scalarTy it) }, st) := by
+  obtain ⟨hat, haref, haenum, haext, haany, haall, hadef, _, hitflat⟩ := hp
+  have hio : itemsOf p = it := by simp [itemsOf, hit]
+  rw [hio] at hitflat
+  have hinl := inline_flat cfg doc hc f it (scope ++ "Elem") hitflat
+  simp only [StateT.run] at hinl
+  rw [generateTypeInline]
+  simp [haenum, haref, haext, haany, haall, hat, hit, isPrimitiveTypeName,
+    StateT.run, bind, StateT.bind, pure, StateT.pure, Except.bind, Except.pure, hinl, flatRes]
 
 theorem fieldsT (cfg : Config) (doc : SchemaDoc) (hc : genCfg cfg) (d : Nat) (ih : DeclaredOK cfg doc d) (t : Schema) (scope : String) :
     ∀ (ns : List String) (f : Nat) (unique : List (String × Nat)) (fs : List Field) (ms : List FieldMeta) (req : List String) (st : GenSt),
@@ -239,7 +276,7 @@ theorem fieldsT (cfg : Config) (doc : SchemaDoc) (hc : genCfg cfg) (d : Nat) (ih
       exact alookup_snoc_none _ _ _ _ (hun m (by simp [hm])) hne
     simp only [List.flatMap_cons] at hsn hfr
     have hsnr : (rest.flatMap (memScopes d scope t)).Nodup := (List.nodup_append.mp hsn).2.1
-    rcases hkind with hflat | ⟨hobj, htree⟩
+    rcases hkind with hflat | ⟨hobj, htree⟩ | harr
     · -- a scalar member: nothing is declared
       rw [hp] at hflat
       have hno : isObj (propOf t n) = false := by rw [hp]; exact flat_not_obj prop hflat
@@ -260,10 +297,11 @@ theorem fieldsT (cfg : Config) (doc : SchemaDoc) (hc : genCfg cfg) (d : Nat) (ih
         StateT.run, bind, StateT.bind, pure, StateT.pure, get, getThe, MonadStateOf.get, StateT.get, Except.bind, Except.pure, hinl,
         hnil, hwrap]
       have hno' : isObj prop = false := flat_not_obj prop hflat
-      simp only [fieldT, metaT, memFty, memTy, propOf, hprop, fname, Option.getD, hno', Bool.false_eq_true, if_false] at hrest
+      have hna' : isArr prop = false := flat_not_arr prop hflat
+      simp only [fieldT, metaT, memFty, memTy, propOf, hprop, fname, Option.getD, hno', hna', Bool.false_eq_true, if_false, Bool.or_false] at hrest
       by_cases hr : n ∈ t.node.required <;> rcases hflat.1 with h | h | h | h <;>
         simp [hr, flatRes, h, withBounds_self] at hrest ⊢ <;>
-        (rw [hrest]; simp [fieldT, metaT, memFty, memTy, isObj, propOf, hprop, fname, hr, h])
+        (rw [hrest]; simp [fieldT, metaT, memFty, memTy, isObj, isArr, propOf, hprop, fname, hr, h])
     · -- an object member: its declarations are appended first
       rw [hp] at hobj htree
       have hshape := htree.shape
@@ -297,10 +335,36 @@ theorem fieldsT (cfg : Config) (doc : SchemaDoc) (hc : genCfg cfg) (d : Nat) (ih
       simp [hprop, htag, identifierizeM, hascii, hcaps, hshape.ext, nextFieldName, fname, hu, hshape.dflt,
         StateT.run, bind, StateT.bind, pure, StateT.pure, get, getThe, MonadStateOf.get, StateT.get, Except.bind, Except.pure, h1,
         hnil, hwrap]
-      simp only [fieldT, metaT, memFty, memTy, propOf, hprop, fname, Option.getD, hobj, if_true] at hrest
+      have hnaO : isArr prop = false := obj_not_arr prop hobj
+      simp only [fieldT, metaT, memFty, memTy, propOf, hprop, fname, Option.getD, hobj, hnaO, if_true, Bool.or_false] at hrest
       by_cases hr : n ∈ t.node.required <;>
         simp [hr] at hrest ⊢ <;>
-        (rw [hrest]; simp [fieldT, metaT, memFty, memTy, propOf, hprop, fname, hr, hobj])
+        (rw [hrest]; simp [fieldT, metaT, memFty, memTy, propOf, hprop, fname, hr, hobj, hnaO])
+    · -- an array of scalars: a slice, never pointer-wrapped, nothing declared
+      rw [hp] at harr
+      obtain ⟨hat, haref, haenum, haext, haany, haall, hadef, ⟨it, hit⟩, hitflat⟩ := harr
+      have hio : itemsOf prop = it := by simp [itemsOf, hit]
+      rw [hio] at hitflat
+      have hno : isObj (propOf t n) = false := by rw [hp]; simp [isObj, hat]
+      have hno' : isObj prop = false := by simp [isObj, hat]
+      have hya' : isArr prop = true := by simp [isArr, hat]
+      obtain ⟨g0, rfl⟩ : ∃ g0, g = g0 + 1 := ⟨g - 1, by simp at hf; omega⟩
+      have hinl0 := fun st => inline_arr cfg doc hc g0 prop it (scope ++ fname n)
+        ⟨hat, haref, haenum, haext, haany, haall, hadef, ⟨it, hit⟩, by rw [hio]; exact hitflat⟩ hit st
+      simp only [StateT.run, fname] at hinl0
+      have hfrr : Fresh st (rest.flatMap (memScopes d scope t)) := fun s hs => hfr s (List.mem_append_right _ hs)
+      obtain ⟨st', hrest, hg⟩ := ihl (g0 + 2) (unique ++ [(identifierizeStr [] n, 1)])
+        (fs ++ [fieldT cfg scope t n]) (ms ++ [metaT scope t n]) (req ++ (if t.node.required.contains n then [n] else [])) st
+        hokr hndr hunr hsnr hfrr hh (by simp at hf ⊢; omega)
+      refine ⟨st', ?_, by simpa [memDecls, hno] using hg⟩
+      simp only [StateT.run] at hrest
+      rw [addStructFields]
+      simp [hprop, htag, identifierizeM, hascii, hcaps, haext, nextFieldName, fname, hu, hadef, isNillable,
+        StateT.run, bind, StateT.bind, pure, StateT.pure, get, getThe, MonadStateOf.get, StateT.get, Except.bind, Except.pure, hinl0]
+      simp only [fieldT, metaT, memFty, memTy, propOf, hprop, fname, Option.getD, hno', hya', itemsOf, hit, Bool.false_eq_true, if_false, if_true, Bool.or_true] at hrest
+      by_cases hr : n ∈ t.node.required <;>
+        simp [hr, flatRes] at hrest ⊢ <;>
+        (rw [hrest]; simp [fieldT, metaT, memFty, memTy, isObj, isArr, propOf, hprop, fname, hr, hat, itemsOf, hit])
 
 theorem sfv_named (field : String) (sch : NodeF Schema) (n : String) (nl : Bool) (f : Nat) (st : GenSt) :
     (structFieldValidators field sch (f + 1) (.named n) nl).run st = .ok ([], st) := by
@@ -310,19 +374,27 @@ theorem sfv_member (scope : String) (d : Nat) (t : Schema) (n : String) (hn : Me
     ∃ st', (structFieldValidators (fname n) (propOf t n).node 16 (memFty scope t n) false).run st =
       .ok (memVs t n, st') ∧ Same st st' := by
   obtain ⟨⟨⟨prop, hprop⟩, h2, h3, h4⟩, hkind⟩ := hn
-  rcases hkind with hflat | ⟨hobj, _⟩
+  rcases hkind with hflat | ⟨hobj, _⟩ | harr
   · have hno := flat_not_obj _ hflat
+    have hna := flat_not_arr _ hflat
     have hnk : NameOK t n := ⟨⟨prop, hprop, by simpa [propOf, hprop] using hflat⟩, h2, h3, h4⟩
     have := sfv_field t n hnk st
-    simpa [memFty, memTy, memVs, hno, ftyOf] using this
+    simpa [memFty, memTy, memVs, hno, hna, ftyOf] using this
   · refine ⟨st, ?_, Same.rfl' st⟩
+    have hna := obj_not_arr _ hobj
     by_cases hr : t.node.required.contains n = true
-    · simp only [memFty, memTy, memVs, hobj, hr, if_true]
+    · simp only [memFty, memTy, memVs, hobj, hna, hr, if_true, Bool.or_false]
       exact sfv_named _ _ _ _ 15 st
     · have hr' : t.node.required.contains n = false := by simpa using hr
-      simp only [memFty, memTy, memVs, hobj, hr', if_true, Bool.false_eq_true, if_false]
+      simp only [memFty, memTy, memVs, hobj, hna, hr', if_true, Bool.false_eq_true, if_false, Bool.or_false]
       rw [structFieldValidators]
       exact sfv_named _ _ _ _ 14 st
+  · refine ⟨st, ?_, Same.rfl' st⟩
+    have hno := arr_not_obj _ harr
+    have hya := arr_is_arr _ harr
+    simp only [memFty, memTy, memVs, hno, hya, Bool.or_true, if_true, Bool.false_eq_true, if_false]
+    rcases harr.2.2.2.2.2.2.2.2.1 with h | h | h | h <;>
+      simp [structFieldValidators, structFieldValidators.arrayLoop, scalarTy, h, StateT.run, pure, StateT.pure, Except.pure]
 
 theorem loopT (scope : String) (d : Nat) (t : Schema) : ∀ (ns : List String) (vs : List Validator) (st : GenSt), (∀ n ∈ ns, MemberOK d t n) →
     ∃ st', (fieldValidatorsLoop (ns.map (metaT scope t)) vs false).run st = .ok ((vs ++ ns.flatMap (memVs t), false), st') ∧ Same st st' := by
